@@ -182,7 +182,8 @@ func comps0(t types.Type) []Comp {
 		return out
 	case *types.Array:
 		if u.Len() > 16 {
-			unsupp("array type too long: %s", typeName(t))
+			// long arrays (hashes, keys) are opaque values
+			return []Comp{{"", SInt, t0}}
 		}
 		var out []Comp
 		for i := int64(0); i < u.Len(); i++ {
